@@ -638,7 +638,7 @@ def t_svcb(b):
 
 
 def _edns_option(b):
-    code = b.draw(st.sampled_from([3, 8, 8, 10, 15, 15, 18, 16, 17, 12, 5, 65001, 20292, 20293, 20294, 20295]))
+    code = b.draw(st.sampled_from([3, 8, 8, 10, 15, 15, 18, 16, 17, 12, 5, 65001, 20292, 22, 23, 24, 25, 22, 23, 24, 25]))
     if code == 8:
         fam = b.draw(st.sampled_from([1, 2]))
         mx = 32 if fam == 1 else 128
@@ -678,12 +678,16 @@ def _edns_option(b):
         sub = B(b.draw, b.ctx)
         sub.name()
         v = bytes(sub.out)
-    elif code in (16, 17, 20292, 20293, 20294, 20295):
-        # utf-8 text options (EDE_EXTRA_TEXT_LANGUAGE, FILTERING_*); 16/17 are generic
+    elif code in (16, 17, 20292, 22, 23, 24, 25):
+        # utf-8 text options (22 EDE-EXTRA-TEXT-LANGUAGE, 23-25 FILTERING-*); 16/17/20292 are generic.
+        # Unlike EDE's EXTRA-TEXT these are plain values: trailing NUL octets are part of them
         try:
             v = b.draw(st.text(max_size=10)).encode("utf8")
         except UnicodeEncodeError:
             v = b"en"
+        if b.draw(st.integers(0, 3)) == 0:
+            v += b"\x00" * b.draw(st.sampled_from([1, 1, 2, 3]))
+            b.flags.add("text-option-trailing-nul")
     else:
         v = b.octets()
     b.raw(struct.pack("!HH", code, len(v)) + v)
